@@ -205,6 +205,34 @@ def mon_C03(hist, ctxs, kf):
 DEC = re.compile(r"^[1-9][0-9]*$")
 
 
+def alloc_violations(a, side, n, used, view):
+    """the property's text for one `allocated n` answer to a connection bound to (a, side):
+    used = names with a nameplates row in app a before the command; view = rows a second reader
+    of the files sees after it"""
+    out = []
+    if not DEC.match(n):
+        return ["allocated %r is not a positive decimal without leading zeros" % n]
+    if n in used:
+        out.append("allocated %r is already in use in app %s" % (n, unhex(a)))
+    for d in (1, 2, 3):
+        if any(str(k) not in used for k in range(10 ** (d - 1), 10 ** d)):
+            if len(n) > d:
+                out.append("allocated %r although a free %d-digit nameplate exists" % (n, d))
+            break
+    if len(n) > 6:
+        out.append("allocated %r longer than 6 digits" % n)
+    if view is not None:
+        # held, and committed, when the answer is sent
+        rows = [r for r in view["np"] if r[1] == a and r[2] == H(n)]
+        ok = False
+        for r in rows:
+            if any(s[0] == r[0] and s[2] == side and s[1] for s in view["nps"]):
+                ok = True
+        if not ok:
+            out.append("allocated %r but no committed claim of side %s on it" % (n, unhex(side)))
+    return out
+
+
 def mon_C04(hist, ctxs, kf):
     v = []
     nontrivial = 0
@@ -219,27 +247,8 @@ def mon_C04(hist, ctxs, kf):
             used = set(unhex(r[2]) for r in x.pre["chan"]["np"] if r[1] == a)
             if used:
                 nontrivial += 1
-            if not DEC.match(n):
-                v.append((x.i, "allocated %r is not a positive decimal without leading zeros" % n))
-                continue
-            if n in used:
-                v.append((x.i, "allocated %r is already in use in app %s" % (n, unhex(a))))
-            for d in (1, 2, 3):
-                if any(str(k) not in used for k in range(10 ** (d - 1), 10 ** d)):
-                    if len(n) > d:
-                        v.append((x.i, "allocated %r although a free %d-digit nameplate exists" % (n, d)))
-                    break
-            if len(n) > 6:
-                v.append((x.i, "allocated %r longer than 6 digits" % n))
-            # held, and committed, when the answer is sent
-            view = x.post["chan_c"] if not x.crash else x.post["chan_c"]
-            rows = [r for r in view["np"] if r[1] == a and r[2] == f[4]]
-            ok = False
-            for r in rows:
-                if any(s[0] == r[0] and s[2] == side and s[1] for s in view["nps"]):
-                    ok = True
-            if not ok and not x.crash:
-                v.append((x.i, "allocated %r but no committed claim of side %s on it" % (n, unhex(side))))
+            for msg in alloc_violations(a, side, n, used, None if x.crash else x.post["chan_c"]):
+                v.append((x.i, msg))
     return v, nontrivial
 
 
@@ -352,6 +361,39 @@ def mon_C07(hist, ctxs, kf):
             nontrivial += 1
             if pre != post:
                 v.append((x.i, "reclaimed answer but the database changed"))
+        if x.kind == "cmd" and x.mtype == "claim" and not x.crash and x.c in x.bound_pre \
+           and isinstance(x.msg.get("nameplate"), str):
+            # a `claimed` answer is a live nameplate row with a claim of that side behind it - whatever
+            # happened to the nameplate since this connection last heard of it (released over another
+            # connection, expired, its mailbox closed); a side that released a still-live nameplate is refused
+            a, side = x.bound_pre[x.c]
+            n = H(x.msg["nameplate"])
+            got = [f for f in x.frames_c if f[3] == "claimed"]
+            before = hp.get((a, n))
+            if got:
+                if before is not None:
+                    nontrivial += 1
+                for view in (x.post["chan"], x.post["chan_c"]):
+                    rows = [r for r in view["np"] if r[1] == a and r[2] == n]
+                    ok = len(rows) == 1 and rows[0][3] == got[0][4] and \
+                        any(s[0] == rows[0][0] and s[2] == side and s[1] for s in view["nps"])
+                    if not ok:
+                        v.append((x.i, "claim of %s/%s by side %s answered claimed %s, but the stored nameplate/claim rows are %s / %s"
+                                  % (unhex(a), unhex(n), unhex(side), got[0][4], rows,
+                                     [s for s in view["nps"] if rows and s[0] == rows[0][0]])))
+                        break
+                if before is not None and before.get(side) is False:
+                    v.append((x.i, "side %s released the still-live nameplate %s/%s earlier and is answered claimed instead of reclaimed"
+                              % (unhex(side), unhex(a), unhex(n))))
+            if x.error == "crowded" and x.exc is None:
+                # a refused (crowded) claim is still a recorded claim - the server honours its release - and the
+                # refusal must not end anybody's claim, least of all the claimant's own earlier one
+                nontrivial += 1
+                rows = [r for r in x.post["chan"]["np"] if r[1] == a and r[2] == n]
+                if not (len(rows) == 1 and any(s[0] == rows[0][0] and s[2] == side and s[1] for s in x.post["chan"]["nps"])):
+                    v.append((x.i, "claim of %s/%s by side %s answered crowded, and afterwards that side has no recorded claim on it "
+                              "(nameplate rows %s, claims %s)" % (unhex(a), unhex(n), unhex(side), rows,
+                                                                 [s for s in x.post["chan"]["nps"] if rows and s[0] == rows[0][0]])))
     return v, nontrivial
 
 
@@ -398,6 +440,19 @@ def mon_C08(hist, ctxs, kf):
         if x.mtype == "close" and not x.crash and x.c in x.bound_pre and x.exc is None:
             if x.error is None and not any(f[3] == "closed" for f in x.frames_c):
                 v.append((x.i, "close neither answered closed nor with an error"))
+            if any(f[3] == "closed" for f in x.frames_c):
+                # `closed` means: this side no longer has the mailbox open (or the mailbox is gone altogether)
+                a, side = x.bound_pre[x.c]
+                m = x.msg.get("mailbox")
+                m = H(m) if isinstance(m, str) else None
+                if m is None:
+                    row = [r for r in x.pre["conns"] if r[0] == x.c]
+                    m = row[0][9] if row and isinstance(row[0][9], str) else None
+                if m is not None and any(r[0] == a and r[1] == m for r in post["mb"]):
+                    srow = [s for s in post["mbs"] if s[0] == m and s[2] == side]
+                    if not srow or srow[0][1]:
+                        v.append((x.i, "close of %s/%s by side %s answered closed, but the mailbox is still there and the side is %s"
+                                  % (unhex(a), unhex(m), unhex(side), "still recorded as having it open" if srow else "not recorded at all")))
         # the last close deletes the mailbox together with everything that hangs on it
         gone = set(r[1] for r in pre["mb"]) - post_mb
         for m in gone:
@@ -490,43 +545,84 @@ def sweeps_in(x, EXP):
     return None
 
 
+def activity_of(x):
+    """(app, mailbox) stamped by this command according to the property text: a successfully answered
+    claim / allocate / open / add (also by a side that already has its side row)"""
+    if x.kind != "cmd" or x.crash or not x.ok or x.c not in x.bound_pre:
+        return None
+    a = x.bound_pre[x.c][0]
+    if x.mtype == "open" and isinstance(x.msg.get("mailbox"), str):
+        return (a, H(x.msg["mailbox"]))
+    if x.mtype == "add":
+        return x.holds_pre.get(x.c)
+    if x.mtype == "claim":
+        for f in x.frames_c:
+            if f[3] == "claimed" and isinstance(f[4], str):
+                return (a, f[4])
+    if x.mtype == "allocate":
+        for f in x.frames_c:
+            if f[3] == "allocated" and isinstance(f[4], str):
+                for r in x.post["chan"]["np"]:
+                    if r[1] == a and r[2] == f[4]:
+                        return (a, r[3])
+    return None
+
+
 def mon_C12(hist, ctxs, kf):
     v = []
     EXP = hist["exp"]
     nontrivial = 0
+    ledger = {}      # (app, mailbox) -> instant of the last claim/allocate/open/add, kept from the commands alone
     for x in ctxs:
-        sw = sweeps_in(x, EXP)
-        if x.ev["k"] in ("restart",) or (x.crash):
-            sw_boot = True
-        else:
-            sw_boot = False
-        if sw is None and not sw_boot:
-            continue
-        pre, post = x.pre["chan_c"] if sw_boot else x.pre["chan"], x.post["chan"]
-        if x.crash:
-            continue   # the state the boot sweep started from is not observed
-        t = x.post["now"]
-        subscribed = set(k for k in x.holds_pre.values()) if not sw_boot else set()
-        post_mb = {(r[0], r[1]): r for r in post["mb"]}
-        for r in pre["mb"]:
-            key = (r[0], r[1])
-            fresh = r[2] > t - EXP
-            if fresh or key in subscribed:
+        for msg in _c12_sweep(x, EXP, ledger):
+            if msg is None:
                 nontrivial += 1
-                if key not in post_mb:
-                    v.append((x.i, "sweep at %d deleted mailbox %s/%s (updated %d, expiration %d, subscribed=%s)"
-                              % (t, unhex(r[0]), unhex(r[1]), r[2], EXP, key in subscribed)))
-                    continue
-                for tab, col in (("mbs", 0), ("msg", 1), ("np", 3)):
-                    a = [q for q in pre[tab] if q[col] == r[1]]
-                    b = [q for q in post[tab] if q[col] == r[1]]
-                    if a != b:
-                        v.append((x.i, "sweep changed %s rows of surviving mailbox %s" % (tab, unhex(r[1]))))
-                npids = [q[0] for q in pre["np"] if q[3] == r[1]]
-                for npid in npids:
-                    if [q for q in pre["nps"] if q[0] == npid] != [q for q in post["nps"] if q[0] == npid]:
-                        v.append((x.i, "sweep changed claims of nameplate %s of surviving mailbox" % npid))
+            else:
+                v.append((x.i, msg))
+        key = activity_of(x)
+        if key is not None:
+            ledger[key] = x.pre["now"]
+        live = set((r[0], r[1]) for r in x.post["chan"]["mb"])
+        for key in list(ledger):
+            if key not in live:
+                del ledger[key]
     return v, nontrivial
+
+
+def _c12_sweep(x, EXP, ledger):
+    """yields None per protected mailbox examined, or a violation text"""
+    sw = sweeps_in(x, EXP)
+    if x.ev["k"] in ("restart",) or (x.crash):
+        sw_boot = True
+    else:
+        sw_boot = False
+    if sw is None and not sw_boot:
+        return
+    pre, post = x.pre["chan_c"] if sw_boot else x.pre["chan"], x.post["chan"]
+    if x.crash:
+        return   # the state the boot sweep started from is not observed
+    t = x.post["now"]
+    subscribed = set(k for k in x.holds_pre.values()) if not sw_boot else set()
+    post_mb = {(r[0], r[1]): r for r in post["mb"]}
+    for r in pre["mb"]:
+        key = (r[0], r[1])
+        fresh = r[2] > t - EXP
+        active = ledger.get(key) is not None and ledger[key] > t - EXP
+        if fresh or active or key in subscribed:
+            yield None
+            if key not in post_mb:
+                yield ("sweep at %d deleted mailbox %s/%s (updated %d, last claim/allocate/open/add at %s, expiration %d, subscribed=%s)"
+                       % (t, unhex(r[0]), unhex(r[1]), r[2], ledger.get(key), EXP, key in subscribed))
+                continue
+            for tab, col in (("mbs", 0), ("msg", 1), ("np", 3)):
+                a = [q for q in pre[tab] if q[col] == r[1]]
+                b = [q for q in post[tab] if q[col] == r[1]]
+                if a != b:
+                    yield "sweep changed %s rows of surviving mailbox %s" % (tab, unhex(r[1]))
+            npids = [q[0] for q in pre["np"] if q[3] == r[1]]
+            for npid in npids:
+                if [q for q in pre["nps"] if q[0] == npid] != [q for q in post["nps"] if q[0] == npid]:
+                    yield "sweep changed claims of nameplate %s of surviving mailbox" % npid
 
 
 # ---------------------------------------------------------------------- C13
@@ -713,6 +809,9 @@ ERRONEOUS_FREE = ("ping",)
 def mon_C17(hist, ctxs, kf):
     v = []
     n = 0
+    # what each connection claimed / opened / already did, from the raw commands it sent (not from the
+    # server's own per-connection fields: a server that remembers something else than what was sent is the point)
+    st = {"claimed": {}, "allocated": set(), "released": set(), "opened": {}, "closed": set()}
     for x in ctxs:
         if x.kind == "connect":
             fs = frames(x.post, x.c)
@@ -753,13 +852,31 @@ def mon_C17(hist, ctxs, kf):
                 v.append((x.i, "erroneous command changed subscriptions"))
             if fs[-1][3] != "error" or len(fs) > 2:
                 v.append((x.i, "erroneous command answered by %s" % [f[3] for f in fs]))
-        if erroneous(x) and not errs:
-            v.append((x.i, "malformed/out-of-order command %s not answered by an error" % json.dumps(msg)))
+        bad = erroneous(x, st)
+        if bad and not errs:
+            v.append((x.i, "malformed/out-of-order command %s of connection %s not answered by an error" % (json.dumps(msg), x.c)))
+        if not bad and errs and errs[0][4] == "other":
+            v.append((x.i, "well-formed, in-order command %s of connection %s (claimed %r, opened %r) refused with a protocol error"
+                      % (json.dumps(msg), x.c, st["claimed"].get(x.c), st["opened"].get(x.c))))
+        # ---- what the connection has done so far
+        c, t = x.c, x.mtype
+        if c in x.bound_pre and isinstance(t, str):
+            kinds = [f[3] for f in fs]
+            if t == "claim" and isinstance(msg.get("nameplate"), str) and c not in st["claimed"]:
+                st["claimed"][c] = msg["nameplate"]
+            elif t == "allocate" and "allocated" in kinds:
+                st["allocated"].add(c)
+            elif t == "release" and "released" in kinds:
+                st["released"].add(c)
+            elif t == "open" and isinstance(msg.get("mailbox"), str) and c not in x.holds_pre:
+                st["opened"][c] = msg["mailbox"]
+            elif t == "close" and "closed" in kinds:
+                st["closed"].add(c)
     return v, n
 
 
-def erroneous(x):
-    """the property's list, decided from the commands seen so far (conservative subset)"""
+def erroneous(x, st):
+    """the property's list, decided from the commands seen so far"""
     msg = x.msg
     if "type" not in msg:
         return True
@@ -782,6 +899,23 @@ def erroneous(x):
         return True
     if t == "add" and ("phase" not in msg or "body" not in msg):
         return True
+    c = x.c
+    if t == "claim" and c in st["claimed"]:
+        return True
+    if t == "allocate" and c in st["allocated"]:
+        return True
+    if t == "release":
+        if c in st["released"]:
+            return True
+        if "nameplate" in msg:
+            return c in st["claimed"] and msg["nameplate"] != st["claimed"][c]
+        return c not in st["claimed"]
+    if t == "close":
+        if c in st["closed"]:
+            return True
+        if "mailbox" in msg:
+            return c in st["opened"] and msg["mailbox"] != st["opened"][c]
+        return c not in st["opened"]
     return False
 
 
